@@ -878,6 +878,14 @@ class ExprMixin:
             if all(k[0] == "k" for k in d.attr) and len(d.attr) <= limit:
                 return [self.mk("Tuple", (self.key_node(k[1], it.site), v), None, it.site)
                         for k, v in self.dict_items(d)]
+            # keys that are objects (classes, functions, library types) written in the literal: distinct objects, the
+            # items in the order written
+            if all(k[0] in ("k", "n") for k in d.attr) and len(d.attr) <= limit and all(
+                    k[0] == "k" or v[0].op in ("Class", "Func", "Ext", "Closure") for k, v in self.dict_items(d)) and \
+                    len({self.g.vn(v[0]) for k, v in self.dict_items(d) if k[0] == "n"}) == \
+                    sum(1 for k in d.attr if k[0] == "n"):
+                return [self.mk("Tuple", (self.key_node(k[1], it.site), v) if k[0] == "k" else (v[0], v[1]), None,
+                                it.site) for k, v in self.dict_items(d)]
         if it.op == "Const" and isinstance(it.attr, tuple) and len(it.attr) <= limit:
             return [self.const(x) for x in it.attr]
         return None
